@@ -21,6 +21,8 @@ func main() {
 	list := flag.Bool("list", false, "list properties")
 	noEvidence := flag.Bool("no-evidence", false, "do not write evidence/report (used by control runs)")
 	survey := flag.String("survey-locks", "", "pkg.Type: print field accesses with locksets")
+	dump := flag.Bool("dump", false, "print the canonical obligation list (rule, construct, verdict) and exit 0")
+	extra := flag.String("extra", "", "JSON file with extra coverage info produced by the thorough driver (controls, N-version comparison)")
 	describe := flag.Bool("describe", false, "print the registered properties with their decided / not decided clauses as JSON")
 	flag.Parse()
 	if *describe {
@@ -91,6 +93,15 @@ func main() {
 		return
 	}
 	p.Run(a)
+	if *dump {
+		var lines []string
+		for _, o := range a.obs {
+			lines = append(lines, fmt.Sprintf("%s\t%s\t%s", o.Rule, o.Construct, o.Verdict))
+		}
+		sort.Strings(lines)
+		fmt.Println(strings.Join(lines, "\n"))
+		return
+	}
 	if *noEvidence {
 		// control mode: print failing obligations only
 		n := 0
@@ -103,7 +114,18 @@ func main() {
 		fmt.Printf("CONTROL-SUMMARY failing=%d total=%d\n", n, len(a.obs))
 		return
 	}
-	os.Exit(a.finish(p, *verifDir, seed, start, nil))
+	var extraInfo map[string]any
+	if *extra != "" {
+		if b, err := os.ReadFile(*extra); err == nil {
+			json.Unmarshal(b, &extraInfo)
+		}
+		if fails, ok := extraInfo["integrity_failures"].([]any); ok {
+			for _, f := range fails {
+				a.add(&Ob{Rule: "checker-integrity", Construct: fmt.Sprint(f), Verdict: Undecided, Detail: "thorough driver: " + fmt.Sprint(f)})
+			}
+		}
+	}
+	os.Exit(a.finish(p, *verifDir, seed, start, extraInfo))
 }
 
 func envOr(k, d string) string {
